@@ -353,19 +353,27 @@ def gen_cancel(rng):
     if not first_cancel:
         pair.reverse()
     h2 = [("sch", ("r", rng.choice(DELAYS)), 0, ("ip", 300), rng.randrange(2), rng.choice([None, 10]))]
-    m = {"cap": rng.choice([2, 4, 16]), "handlers": [[], pair, h2, [("can", 0)]], "outs": []}
+    # the canceller cancels explicitly or by dropping an auto-cancelling key
+    m = {"cap": rng.choice([2, 4, 16]), "handlers": [[], pair, h2, [(rng.choice(["can", "can", "cau"]), 0)]], "outs": []}
     case = {"models": [m], "sinks": [], "mode": "seq", "tags": {"cancel"}, "t0": 0, "clock": [],
             "meta": {"d": d, "first_cancel": first_cancel}}
     cmds, val, horizon = [], 0, 0
+    frozen = set()      # driver slots whose key has been cloned: not reused (the model resolves a clone to its slot)
     for _ in range(rng.randint(4, 12)):
         r = rng.random()
         val += 1
         if r < 0.45:
             t = horizon + 10 * rng.randint(1, 3)
-            cmds.append(("se", ("a", t), 0, rng.choice([0, 0, 1, 1, 2, 3]), val, rng.choice([None, 0, 1, 2, 3]),
+            free = [x for x in (0, 1, 2, 3) if x not in frozen]
+            cmds.append(("se", ("a", t), 0, rng.choice([0, 0, 1, 1, 2, 3]), val, rng.choice([None] + free) if free else None,
                          rng.choice([None, None, 10, 30])))
+        elif r < 0.53:
+            a = rng.randrange(4)
+            frozen.add(a)
+            cmds.append(("ck", a, rng.choice([4, 5, 6])))
+            case["tags"].add("key-clone")
         elif r < 0.65:
-            cmds.append(("cn", rng.randrange(4)))
+            cmds.append((rng.choice(["cn", "cn", "ca"]), rng.randrange(7)))
         elif r < 0.85:
             cmds.append(("st",)); horizon += 10
         else:
